@@ -243,14 +243,19 @@ def run(ctx):
     rec = [(n_, g) for n_, g in _calls_with_guards(f.node) if (X.dotted_attr(n_.func) or '').endswith('parent._lookup_formatted_name')]
     if not rec:
         raise AnalysisError('_lookup_formatted_name: recursive parent look-up not found')
+    vnames = X.names_assigned_from(f.node, 'super().get')
+    if not vnames:
+        raise AnalysisError('_lookup_formatted_name: local look-up `<v> = super().get(...)` not found')
+    vn = vnames[0]
+    rpar = [a.arg for a in f.node.args.args][-1]          # the `recursive` flag is the last parameter
     for call, guards in rec:
         gt = ' and '.join(guards)
-        if 'value is None' in gt and 'recursive' in gt:
+        if f'{vn} is None' in gt and rpar in gt:
             ctx.judge('R3', 'parent look-up guarded', facts={'guard': gt})
         else:
             ctx.violation('R3', '_lookup_formatted_name:guard', f.where,
                           f'parent table is consulted under guard `{gt}`: a parent declaration can shadow the local one')
-    loc = [n_ for n_ in ast.walk(f.node) if isinstance(n_, ast.Assign) and ast.unparse(n_.targets[0]) == 'value'
+    loc = [n_ for n_ in ast.walk(f.node) if isinstance(n_, ast.Assign) and ast.unparse(n_.targets[0]) == vn
            and 'super().get' in ast.unparse(n_.value)]
     (ctx.judge('R3', 'local look-up first') if loc and loc[0].lineno < rec[0][0].lineno else
      ctx.violation('R3', '_lookup_formatted_name:order', f.where, 'local table is not consulted before the parent'))
@@ -266,7 +271,8 @@ def run(ctx):
      ctx.violation('R3', 'SymbolTable._not_case_sensitive_format_lookup_name', ST.where, 'case-insensitive formatter does not lower-case'))
     nw = ST.function('__new__')
     txt = ast.unparse(nw.node)
-    ok = 'if obj.case_sensitive' in txt and txt.index('_case_sensitive_format_lookup_name') < txt.index('_not_case_sensitive_format_lookup_name')
+    on = (X.names_assigned_from(nw.node, '.__new__(') or ['obj'])[0]
+    ok = f'if {on}.case_sensitive' in txt and txt.index('_case_sensitive_format_lookup_name') < txt.index('_not_case_sensitive_format_lookup_name')
     (ctx.judge('R3', 'formatter selection') if ok else
      ctx.violation('R3', 'SymbolTable.__new__:formatter', nw.where, 'formatter selection by case_sensitive altered'))
 
